@@ -765,8 +765,9 @@ func ruleEnvCertOnly(c *Ctx) {
 	var certArg *types.Var
 	var site ast.Node
 	for _, call := range f.Calls() {
-		if p.envKeyOf(f, call) == "PLUGIN_CLIENT_CERT" && len(call.Args) == 2 {
-			certArg, _ = identObj(info, call.Args[1]).(*types.Var)
+		if p.envKeyOf(f, call) == "PLUGIN_CLIENT_CERT" && len(call.Args) >= 2 {
+			// the value is the last argument ("KEY=%s", v  or  "%s=%s", key, v)
+			certArg, _ = identObj(info, call.Args[len(call.Args)-1]).(*types.Var)
 			site = call
 		}
 	}
